@@ -108,7 +108,7 @@ func main() {
 		fmt.Fprintln(os.Stderr, "covr: no check for", prop)
 		os.Exit(2)
 	}
-	work.EnsureDiskSpace(25)
+	work.EnsureDiskSpace(15)
 	rep := verdict.New(prop, tier, seed, work.VerifDir())
 	if only != "" || os.Getenv("COVERIF_NOEVIDENCE") != "" {
 		rep.NoEvidence = true
